@@ -46,6 +46,9 @@ class State:
                 elif k.startswith("@") and (k not in self.v or k not in o.v):
                     d_s[k] = d_self.get(k) or d_o.get(k)
         for k in set(self.flags) | set(o.flags):
+            if k.startswith("@") and (k not in self.flags or k not in o.flags):
+                s.flags[k] = self.flags.get(k, o.flags.get(k))   # tracking flag: absent = no event yet on that path
+                continue
             a, b = self.flags.get(k, "?"), o.flags.get(k, "?")
             s.flags[k] = a if a == b else "?"
         s.log = self.log if len(self.log) <= len(o.log) else o.log
@@ -507,7 +510,9 @@ class Exec:
             head = sts[0]
             for x in sts[1:]:
                 head = head.join(x)
+            entry0 = head.copy()
             exits = []
+            last_ends = []
             for it in range(8):
                 entry = self.refine(s["cond"], head.copy(), True) if s["cond"] is not None else head.copy()
                 new_head = head
@@ -522,6 +527,7 @@ class Exec:
                     for e_ in ends:
                         new_head = new_head.join(e_)
                     exits = exits_iter
+                    last_ends = ends
                 if new_head.key() == head.key():
                     break
                 if it >= 5:
@@ -533,7 +539,19 @@ class Exec:
                         if new_head.flags[f_] != head.flags.get(f_):
                             new_head.flags[f_] = "?"
                 head = new_head
-            ex = self.refine(s["cond"], head.copy(), False) if s["cond"] is not None else None
-            res["fall"] = ([ex] if ex is not None else []) + exits
+            falls = []
+            if s["cond"] is not None:
+                # leaving without an iteration, and leaving after at least one iteration, are kept apart
+                ex0 = self.refine(s["cond"], entry0.copy(), False)
+                if ex0 is not None:
+                    falls.append(ex0)
+                if last_ends:
+                    after = last_ends[0]
+                    for x in last_ends[1:]:
+                        after = after.join(x)
+                    ex1 = self.refine(s["cond"], after.copy(), False)
+                    if ex1 is not None:
+                        falls.append(ex1)
+            res["fall"] = falls + exits
             return res
         return {"fall": states, "brk": [], "cont": [], "ret": []}
